@@ -25,7 +25,13 @@ DOCS = [
     "# **Bold Title**\n\nHe said \"hello\" and it's fine... Really. This sentence is long enough to need wrapping at narrow widths, yes it is. Another one follows here.\n\n- item one\n- item two\n\n1. a\n\n2. b\n",
     "Plain paragraph with 'single quotes' and dots ... and more text that goes on and on for a while to wrap.\n\n* x\n\n* y\n",
     "Short.\n",
+    # documents chosen so that renderer state left over from one file would change the next one
+    "# Title\n\nSome text here.\n\n## Ending heading\n",
+    "| a | b |\n|---|---|\n| 1 | 2 |\n\nParagraph right after the table, with a [ref] link.\n",
+    "[ref]: http://example.com/x \"T\"\n\n* * *\n\n- item[^n]\n\n[^n]: The note.\n",
 ]
+# already-canonical content stored with CRLF line ends (bytes differ from what any entry point returns)
+CRLF_DOC = b"Short line one.\r\n\r\nShort line two.\r\n"
 
 
 def snapshot(d: Path) -> dict[str, bytes]:
@@ -152,8 +158,9 @@ def check_point(ctx: Ctx, o: dict, sink: str, src: str, doc_i: int) -> None:
                     ctx.fail("CLI --inplace result differs from text API", case, {"file": n, "cli": after.get(n, b"").decode(), "api": exp[n]})
                     return
                 has_orig = (n + ".orig") in after
-                want_orig = sink == "inplace"
-                if has_orig != want_orig or (want_orig and after[n + ".orig"] != before[n]):
+                changed = after.get(n) != before[n]
+                want_orig = sink == "inplace" and changed  # a backup is owed only if the file was changed
+                if (has_orig and sink != "inplace") or (want_orig and not has_orig) or (has_orig and after[n + ".orig"] != before[n]):
                     ctx.fail("backup (.orig) handling differs from --inplace/--nobackup contract", case, {"file": n, "orig_present": has_orig})
                     return
             extra = set(after) - set(before) - {n + ".orig" for n in names}
@@ -182,6 +189,91 @@ def check_point(ctx: Ctx, o: dict, sink: str, src: str, doc_i: int) -> None:
                           list_spacing=ListSpacing(eff["list_spacing"]))
             if (d / "api_out.md").read_text() != exp["a.md"]:
                 ctx.fail("file API result differs from text API", case, None)
+    finally:
+        shutil.rmtree(d, ignore_errors=True)
+
+
+def several_alone(ctx: Ctx) -> None:
+    """With several inputs each file gets exactly the result it would get alone (and in any order)."""
+    order = [3, 4, 5, 0, 1, 2]
+    for o in ({"width": 88, "list_spacing": "preserve", "plaintext": False, "semantic": False, "cleanups": False, "smartquotes": False, "ellipses": False},
+              {"width": 30, "list_spacing": "loose", "plaintext": False, "semantic": True, "cleanups": True, "smartquotes": True, "ellipses": True}):
+        d = Path(tempfile.mkdtemp(prefix="c15m_", dir="/tmp"))
+        try:
+            names = []
+            for k, di in enumerate(order):
+                n = f"f{k}.md"
+                (d / n).write_text(DOCS[di])
+                names.append(n)
+            rc, out, err = run_main(opt_args(o) + ["--inplace", "--nobackup"] + names, cwd=d)
+            multi = {n: (d / n).read_text() for n in names}
+            for k, di in reversed(list(enumerate(order))):
+                n = f"f{k}.md"
+                (d / "neutral.md").write_text("A neutral paragraph.\n")
+                run_main(opt_args(o) + ["--inplace", "--nobackup", "neutral.md"], cwd=d)
+                (d / "solo.md").write_text(DOCS[di])
+                run_main(opt_args(o) + ["--inplace", "--nobackup", "solo.md"], cwd=d)
+                solo = (d / "solo.md").read_text()
+                ctx.count(["several-alone", di, o["width"]])
+                if rc != 0 or multi[n] != solo:
+                    ctx.fail("with several inputs a file got a different result than alone", {"opts": o, "doc": DOCS[di], "position": k},
+                             {"in_multi_run": multi[n], "alone": solo})
+                    return
+        finally:
+            shutil.rmtree(d, ignore_errors=True)
+
+
+def fresh_process_sample(ctx: Ctx) -> None:
+    """A multi-file run in one process vs each file in its own fresh process."""
+    o = {"width": 60, "list_spacing": "preserve", "plaintext": False, "semantic": True, "cleanups": True, "smartquotes": False, "ellipses": False}
+    d = Path(tempfile.mkdtemp(prefix="c15p_", dir="/tmp"))
+    try:
+        names = []
+        for k, di in enumerate([3, 4, 5, 0]):
+            (d / f"g{k}.md").write_text(DOCS[di])
+            names.append(f"g{k}.md")
+        p = subprocess.run([sys.executable, "-m", "flowmark.cli", *opt_args(o), *names], cwd=d, capture_output=True, text=True)
+        solo = ""
+        for n in names:
+            q = subprocess.run([sys.executable, "-m", "flowmark.cli", *opt_args(o), n], cwd=d, capture_output=True, text=True)
+            solo += q.stdout
+        ctx.count(["fresh-process", names])
+        if p.returncode != 0 or p.stdout != solo:
+            ctx.fail("multi-file run differs from the concatenation of single-file runs in fresh processes", {"opts": o, "files": names},
+                     {"multi": p.stdout, "solo": solo})
+    finally:
+        shutil.rmtree(d, ignore_errors=True)
+
+
+def crlf_and_config(ctx: Ctx) -> None:
+    from flowmark import reformat_text
+    # CRLF bytes: every entry point returns LF text; in-place must agree with stdout and the text API
+    d = Path(tempfile.mkdtemp(prefix="c15c_", dir="/tmp"))
+    try:
+        (d / "w.md").write_bytes(CRLF_DOC)
+        want = reformat_text((d / "w.md").read_text(), 88, False, False, False, False, False)
+        rc1, out1, _ = run_main(["w.md"], cwd=d)
+        rc2, _, _ = run_main(["--inplace", "--nobackup", "w.md"], cwd=d)
+        got = (d / "w.md").read_bytes().decode()
+        ctx.count(["crlf"])
+        if out1 != want or got != want:
+            ctx.fail("CRLF file: stdout / in-place / text API disagree", {"bytes": repr(CRLF_DOC)}, {"stdout": out1, "inplace": got, "api": want})
+        # --auto is exactly --inplace --nobackup --semantic --cleanups --smartquotes --ellipses, also next to a config file
+        (d / "flowmark.toml").write_text("semantic = false\ncleanups = false\nsmartquotes = false\nellipses = false\nwidth = 40\n")
+        for k in (0, 1):
+            (d / "a1.md").write_text(DOCS[k])
+            (d / "a2.md").write_text(DOCS[k])
+            r1, _, e1 = run_main(["--auto", "a1.md"], cwd=d)
+            r2, _, e2 = run_main(["--inplace", "--nobackup", "--semantic", "--cleanups", "--smartquotes", "--ellipses", "a2.md"], cwd=d)
+            ctx.count(["auto-vs-explicit-with-config", k])
+            if r1 != 0 or r2 != 0 or (d / "a1.md").read_text() != (d / "a2.md").read_text():
+                ctx.fail("--auto differs from --inplace --nobackup --semantic --cleanups --smartquotes --ellipses (config file present)",
+                         {"doc": DOCS[k], "config": "all switches false, width 40"},
+                         {"auto": (d / "a1.md").read_text(), "explicit": (d / "a2.md").read_text()})
+            api = reformat_text(DOCS[k], 40, False, True, True, True, True)
+            if (d / "a2.md").read_text() != api:
+                ctx.fail("explicit switches next to a config file differ from the text API with the same options", {"doc": DOCS[k]},
+                         {"cli": (d / "a2.md").read_text(), "api": api})
     finally:
         shutil.rmtree(d, ignore_errors=True)
 
@@ -235,6 +327,9 @@ def oracle(ctx: Ctx) -> None:
     for i, (o, sink, src) in enumerate(points(ctx)):
         check_point(ctx, o, sink, src, i % len(DOCS))
     usage_errors(ctx)
+    several_alone(ctx)
+    crlf_and_config(ctx)
+    fresh_process_sample(ctx)
     subprocess_sample(ctx, ctx.scale(12, 120))
     ctx.rule("option product {W∈0,20,88}×2^5 switches×3 spacings×5 sinks×3 sources: pairwise-covering sample (quick) "
              "or the full 4320 points (thorough), in-process main(); subprocess sample; usage errors")
